@@ -162,6 +162,7 @@ SUBCHECKS = {
         rule="case = multiset of stream types x assignment to <=2 zones (flat and nested labels) + zero-crossing lattice family + tolerance-edge family; "
              "non-trivial = some zone has overlapping hot and cold streams; outcomes = distinct per-zone target lists",
         cases=service_cases, run=service_run,
-        bound=lambda t: "multisets of <=2 streams (K=4) x all label schemes of <=2 zones" if t == "quick" else "multisets of <=3 streams (K=4) x all label schemes of <=2 zones",
+        bound=lambda t: ("multisets of <=2 streams (K=4) x all label schemes of <=2 zones" if t == "quick" else "multisets of <=3 streams (K=4) x all label schemes of <=2 zones")
+        + " + same-name identical streams + zero-crossing lattice + small non-round duties + latent-span and tolerance-edge families",
     ),
 }
